@@ -770,6 +770,13 @@ def call_repo(ex, q, self_val, args, kw, st):
             # (recursion over an explicit node shape is bounded by the depth of the shape)
             raise OutsideSubset('call of %s which has no contract' % q)
         lib('helper without a contract executed in place: ' + q)
+        memo = memo_idiom(q, node)
+        if memo is not None:
+            # a memoising helper (module-level dict filled on a miss, only by this function, with a value computed from
+            # the key alone): its result is the computed value; the cache invariant D[k] == E(k) is the idiom itself
+            lib('memoisation idiom: %s returns %s (value depends on the key only; cache written nowhere else)'
+                % (q, ast.unparse(memo.body[0].value)))
+            node = memo
         ex._auto_inline_stack = stack + [q]
         # a helper with loops can only be executed in place if every loop runs over KNOWN elements (it is then unrolled);
         # a loop that would have to be cut needs an invariant, i.e. a contract
@@ -797,6 +804,105 @@ def call_repo(ex, q, self_val, args, kw, st):
         return call_inline(ex, f, args, kw, st, qual=q)
     finally:
         ex.genv = saved_genv
+
+
+def _names(e):
+    return {n.id for n in ast.walk(e) if isinstance(n, ast.Name)}
+
+
+def memo_idiom(q, node):
+    """recognise   try: return D[K]  except KeyError: [r =] D[K] = E; return r|D[K]     and
+                   if K not in D: D[K] = E      return D[K]
+    where D is a module-level name bound once to an empty dict, stored to only inside this function, and E mentions only
+    names of K (and module-level names): returns a copy of the FunctionDef whose body is `return E`, else None"""
+    if not isinstance(node, ast.FunctionDef):
+        return None
+    body = [b for b in node.body if not (isinstance(b, ast.Expr) and isinstance(b.value, ast.Constant))]
+    D = K = E = None
+
+    def sub(e):
+        if isinstance(e, ast.Subscript) and isinstance(e.value, ast.Name):
+            return e.value.id, e.slice
+        return None, None
+    same = lambda a, b: ast.dump(a) == ast.dump(b)    # noqa: E731
+    if len(body) == 1 and isinstance(body[0], ast.Try) and not body[0].finalbody and not body[0].orelse \
+            and len(body[0].body) == 1 and isinstance(body[0].body[0], ast.Return) and len(body[0].handlers) == 1:
+        t = body[0]
+        D, K = sub(t.body[0].value)
+        h = t.handlers[0]
+        if D is None or not (isinstance(h.type, ast.Name) and h.type.id == 'KeyError') or len(h.body) != 2:
+            return None
+        a, r = h.body
+        if not (isinstance(a, ast.Assign) and isinstance(r, ast.Return) and r.value is not None):
+            return None
+        subs = [x for x in a.targets if isinstance(x, ast.Subscript)]
+        nms = [x for x in a.targets if isinstance(x, ast.Name)]
+        if len(subs) != 1 or len(subs) + len(nms) != len(a.targets):
+            return None
+        d2, k2 = sub(subs[0])
+        if d2 != D or not same(k2, K):
+            return None
+        if isinstance(r.value, ast.Name):
+            if r.value.id not in [x.id for x in nms]:
+                return None
+        else:
+            d3, k3 = sub(r.value)
+            if d3 != D or not same(k3, K):
+                return None
+        E = a.value
+    elif len(body) == 2 and isinstance(body[0], ast.If) and not body[0].orelse and isinstance(body[1], ast.Return) \
+            and body[1].value is not None:
+        c = body[0].test
+        if not (isinstance(c, ast.Compare) and len(c.ops) == 1 and isinstance(c.ops[0], ast.NotIn)
+                and isinstance(c.comparators[0], ast.Name)):
+            return None
+        D, K = c.comparators[0].id, c.left
+        if len(body[0].body) != 1 or not isinstance(body[0].body[0], ast.Assign) or len(body[0].body[0].targets) != 1:
+            return None
+        d2, k2 = sub(body[0].body[0].targets[0])
+        d3, k3 = sub(body[1].value)
+        if d2 != D or d3 != D or not (same(k2, K) or same(k2, ast.Tuple(elts=[], ctx=ast.Load())) and False) \
+                or not same(k3, K):
+            return None
+        E = body[0].body[0].value
+    else:
+        return None
+    # D: module-level, bound once to an empty dict, never stored to / mutated / rebound outside this function
+    modq = q.rsplit('.', 1)[0]
+    mod = sys.modules.get(modq)
+    if mod is None or not getattr(mod, '__file__', None):
+        return None
+    tree = ast.parse(open(mod.__file__).read())
+    binds = [n for n in tree.body if isinstance(n, ast.Assign) and any(isinstance(t, ast.Name) and t.id == D for t in n.targets)]
+    if len(binds) != 1 or not (isinstance(binds[0].value, ast.Dict) and not binds[0].value.keys):
+        return None
+    params = {a.arg for a in node.args.args + node.args.kwonlyargs}
+    if D in params or any(isinstance(n, (ast.Global, ast.Nonlocal)) for n in ast.walk(node)):
+        return None
+    uses_outside = 0
+    mine = [n for n in ast.walk(tree) if isinstance(n, ast.FunctionDef) and n.name == node.name and n.lineno == node.lineno]
+    if len(mine) != 1:
+        return None
+    inside = {id(n) for n in ast.walk(mine[0])}
+    for n in ast.walk(tree):
+        if isinstance(n, ast.Name) and n.id == D and id(n) not in inside and n is not binds[0].targets[0]:
+            uses_outside += 1
+    if uses_outside:
+        return None
+    # E depends on the key only (plus module-level names)
+    if not (_names(E) - set(vars(mod))) <= (_names(K) & params):
+        return None
+    if not _names(K) <= params:
+        return None
+    new = ast.FunctionDef(name=node.name, args=node.args, body=[ast.Return(value=E)], decorator_list=[], returns=None,
+                          type_comment=None, lineno=node.lineno, col_offset=node.col_offset)
+    try:
+        new.type_params = []
+    except Exception:
+        pass
+    ast.fix_missing_locations(new)
+    ast.copy_location(new.body[0], E)
+    return new
 
 
 def call_repo_inline(ex, q, node, self_val, args, kw, st):
